@@ -72,6 +72,12 @@ func init() {
 		return func(c *callCtx) Val {
 			ex := c.ex
 			child := ex.newCtx(c.st, c.args[0], "*context."+name)
+			if c.fn != nil && c.fn.Name() == "WithTimeout" && len(c.args) >= 2 && ex.pure == 0 {
+				// remember the duration a timeout context was created with (ctxTimeout(ctx) in specifications)
+				ex.registerKey("X|ctx.timeout", arrSort(sInt, sInt))
+				h := ex.heapGet(c.st, "X|ctx.timeout", arrSort(sInt, sInt))
+				ex.setH(c.st, "X|ctx.timeout", ex.name("ctxto", sto(h, child.L[1], c.args[1].L[0]), arrSort(sInt, sInt)))
+			}
 			cancel := Val{T: cancelT(ex), L: []string{ex.alloc(c.st)}, F: &FuncInfo{Abstract: "cancel"}}
 			// remember which context a cancel function cancels
 			ex.registerKey("X|ctx.cancels", arrSort(sInt, sInt))
